@@ -10,8 +10,9 @@ Programs over one `URI` object (`Model/UriOps.lean`):
 * `run_never_panics`: `Update` never panics.
 * `program_roundtrip`: for every program, if the final state is well-formed (`wfState`: scheme syntax, host bytes, no control
   byte in the fragment, a raw query string free of `#` and control bytes), `Parse(nil, FullURI())` yields the same scheme,
-  host, path and fragment, NO user-info, the query arguments `QueryArgs()` reports - unless the state is one of the two
-  stale-query situations (`UState.staleQuery`) - and formatting again gives the same text.
+  host, path and fragment, NO user-info, the query arguments `QueryArgs()` reports - in EVERY state, the two former
+  stale-query situations (`UState.staleQuery`) included, since `RequestURI()` chooses by `parsedQueryArgs` (/repo 97b0e80) -
+  and formatting again gives the same text.
 -/
 namespace Hertz.Uri
 open Hertz Hertz.Gen.Str
@@ -265,8 +266,9 @@ theorem run_inv (ops : List UriOp) (st : UState) (h : runUriOps ops = some st) :
 
 /-! ### the round trip of a reachable state -/
 
-/-- when no argument list is written, the raw query string must be free of `#` and control bytes -/
-def rawQueryOK (st : UState) : Bool := !st.args.isEmpty || (!hasCTL st.u.query && !st.u.query.contains 35)
+/-- when the raw query string is written (the arguments were not looked at since it was set), it must be free of `#` and
+control bytes -/
+def rawQueryOK (st : UState) : Bool := st.parsed || (!hasCTL st.u.query && !st.u.query.contains 35)
 
 def wfState (st : UState) : Bool := wfRecord st.u && rawQueryOK st
 
@@ -311,136 +313,162 @@ theorem parseArgs_noBothEmpty (b : Bytes) :
   funext kv
   simp
 
-/-- The round trip of any state with the invariant of reachable states. -/
-theorem state_roundtrip (st : UState) (inv : StInv st) (hwf : wfState st = true) :
-    (UState.ofParse [] st.fullURI).u.schemeOrHTTP = st.u.schemeOrHTTP ∧
-    (UState.ofParse [] st.fullURI).u.host = st.u.host ∧
-    (UState.ofParse [] st.fullURI).u.pathOrSlash = st.u.pathOrSlash ∧
-    (UState.ofParse [] st.fullURI).u.hash = st.u.hash ∧
-    (UState.ofParse [] st.fullURI).u.username = [] ∧ (UState.ofParse [] st.fullURI).u.password = [] ∧
-    (st.staleQuery = false →
-      (UState.ofParse [] st.fullURI).queryView = st.queryView.filter (fun kv => !kv.bothEmpty)) ∧
-    (UState.ofParse [] st.fullURI).fullURI = st.fullURI := by
-  simp only [wfState, Bool.and_eq_true] at hwf
-  obtain ⟨hrec, hraw⟩ := hwf
-  have hqp : queryPart st.u st.args =
-      if !st.args.isEmpty then some (appendArgs st.args) else if !st.u.query.isEmpty then some st.u.query else none := rfl
-  have hq35 : ∀ s, queryPart st.u st.args = some s → ∀ x ∈ s, x ≠ 35 := by
+/-! `RequestURI()` with the flag (`URI.fullURIp`) in terms of the flag-less `URI.fullURI` of `Proofs/UriRt.lean`: with the flag
+set it is the text of the same record WITHOUT its query string, written with the argument list; with the flag clear it is the
+text of the record written with no argument list. -/
+
+theorem fullURIp_true (u : URI) (qa : List ArgKV) : u.fullURIp true qa = ({ u with query := [] } : URI).fullURI qa := by
+  unfold URI.fullURIp URI.fullURI URI.requestURIp URI.requestURI
+  cases qa <;> rfl
+
+theorem fullURIp_false (u : URI) (qa : List ArgKV) : u.fullURIp false qa = u.fullURI [] := rfl
+
+/-- on the domain of the flag-less function the two agree -/
+theorem requestURIp_true_cons (u : URI) (kv : ArgKV) (t : List ArgKV) : u.requestURIp true (kv :: t) = u.requestURI (kv :: t) := rfl
+theorem requestURIp_false (u : URI) (qa : List ArgKV) : u.requestURIp false qa = u.requestURI [] := rfl
+
+/-- The round trip of a record with the invariant of reachable records, written with the argument list `qa` (flag-less form:
+the list if it is non-empty, else the raw query string, which then must be free of `#` and control bytes). -/
+theorem record_roundtrip (u : URI) (qa : List ArgKV) (uinv : URIInv u) (ainv : ArgsInv2 qa) (hrec : wfRecord u = true)
+    (hraw : (!qa.isEmpty || (!hasCTL u.query && !u.query.contains 35)) = true) :
+    (parse [] (u.fullURI qa)).schemeOrHTTP = u.schemeOrHTTP ∧
+    (parse [] (u.fullURI qa)).host = u.host ∧
+    (parse [] (u.fullURI qa)).pathOrSlash = u.pathOrSlash ∧
+    (parse [] (u.fullURI qa)).hash = u.hash ∧
+    (parse [] (u.fullURI qa)).username = [] ∧ (parse [] (u.fullURI qa)).password = [] ∧
+    (parse [] (u.fullURI qa)).query = (queryPart u qa).getD [] ∧
+    (parse [] (u.fullURI qa)).fullURI [] = u.fullURI qa := by
+  have hqp : queryPart u qa =
+      if !qa.isEmpty then some (appendArgs qa) else if !u.query.isEmpty then some u.query else none := rfl
+  have hq35 : ∀ s, queryPart u qa = some s → ∀ x ∈ s, x ≠ 35 := by
     intro s hs x hx
     rw [hqp] at hs
-    cases ha : st.args.isEmpty with
+    cases ha : qa.isEmpty with
     | false =>
       simp only [ha, Bool.not_false, if_true, Option.some.injEq] at hs
       subst hs
       have := appendArgs_uriSafe _ x hx; simp [uriSafe] at this; exact this.1.2
     | true =>
       simp only [ha, Bool.not_true, Bool.false_eq_true, if_false] at hs
-      simp only [rawQueryOK, ha, Bool.not_true, Bool.false_or, Bool.and_eq_true, Bool.not_eq_true'] at hraw
+      simp only [ha, Bool.not_true, Bool.false_or, Bool.and_eq_true, Bool.not_eq_true'] at hraw
       split at hs
       · injection hs with hs; subst hs
         exact not_contains _ _ hraw.2 x hx
       · cases hs
-  have hqctl : ∀ s, queryPart st.u st.args = some s → hasCTL s = false := by
+  have hqctl : ∀ s, queryPart u qa = some s → hasCTL s = false := by
     intro s hs
     rw [hqp] at hs
-    cases ha : st.args.isEmpty with
+    cases ha : qa.isEmpty with
     | false =>
       simp only [ha, Bool.not_false, if_true, Option.some.injEq] at hs
       subst hs
       exact hasCTL_of_all uriSafe (fun c => (class_noctl c).2.2) _ (appendArgs_uriSafe _)
     | true =>
       simp only [ha, Bool.not_true, Bool.false_eq_true, if_false] at hs
-      simp only [rawQueryOK, ha, Bool.not_true, Bool.false_or, Bool.and_eq_true, Bool.not_eq_true'] at hraw
+      simp only [ha, Bool.not_true, Bool.false_or, Bool.and_eq_true, Bool.not_eq_true'] at hraw
       split at hs
       · injection hs with hs; subst hs
         exact hraw.1
       · cases hs
-  have e := state_parse_fullURI st.u st.args inv.uinv hrec hq35 hqctl
-  have hv : (UState.ofParse [] st.fullURI).u = parse [] (st.u.fullURI st.args) := rfl
-  obtain ⟨p, hp⟩ := inv.uinv.pathNorm
-  have hpne : st.u.pathOrSlash ≠ [] := by
+  have e := state_parse_fullURI u qa uinv hrec hq35 hqctl
+  obtain ⟨p, hp⟩ := uinv.pathNorm
+  have hpne : u.pathOrSlash ≠ [] := by
     have hh := (normalizePath_contained p).1
     rw [hp]
     intro h0; rw [h0] at hh; simp at hh
-  have hsne := schemeOrHTTP_ne_nil st.u
-  have c1 : (parse [] (st.u.fullURI st.args)).schemeOrHTTP = st.u.schemeOrHTTP := by
+  have hsne := schemeOrHTTP_ne_nil u
+  have c1 : (parse [] (u.fullURI qa)).schemeOrHTTP = u.schemeOrHTTP := by
     rw [e]
     unfold URI.schemeOrHTTP
     simp only
-    cases hh : (if st.u.scheme.isEmpty then strHTTP else st.u.scheme) with
+    cases hh : (if u.scheme.isEmpty then strHTTP else u.scheme) with
     | nil => exact absurd hh hsne
     | cons c t => rfl
-  have c3 : (parse [] (st.u.fullURI st.args)).pathOrSlash = st.u.pathOrSlash := by
+  have c3 : (parse [] (u.fullURI qa)).pathOrSlash = u.pathOrSlash := by
     rw [e]
-    show (if st.u.pathOrSlash.isEmpty then strSlash else st.u.pathOrSlash) = st.u.pathOrSlash
-    cases hh : st.u.pathOrSlash with
+    show (if u.pathOrSlash.isEmpty then strSlash else u.pathOrSlash) = u.pathOrSlash
+    cases hh : u.pathOrSlash with
     | nil => exact absurd hh hpne
     | cons c t => rfl
-  refine ⟨by rw [hv]; exact c1, by rw [hv, e], by rw [hv]; exact c3, by rw [hv, e], by rw [hv, e], by rw [hv, e], ?_, ?_⟩
-  · -- the query arguments
-    intro hstale
-    show parseArgs (parse [] (st.u.fullURI st.args)).query = _
-    rw [e]
-    simp only
-    simp only [UState.staleQuery, Bool.or_eq_false_iff, Bool.and_eq_false_iff, Bool.not_eq_false',
-      Bool.not_eq_eq_eq_not, Bool.not_true, Bool.not_false] at hstale
-    unfold UState.queryView UState.parseQA
-    rw [hqp]
-    cases ha : st.args.isEmpty with
-    | false =>
-      have hparsed : st.parsed = true := by
-        rcases hstale.1 with h | h
-        · exact h
-        · rw [ha] at h; cases h
-      simp only [Bool.not_false, if_true, Option.getD_some, hparsed]
+  refine ⟨c1, by rw [e], c3, by rw [e], by rw [e], by rw [e], by rw [e], ?_⟩
+  -- formatting again
+  generalize hR : parse [] (u.fullURI qa) = R at e c1 c3 ⊢
+  have lhs : R.fullURI [] = R.schemeOrHTTP ++ strColonSlashSlash ++ R.host ++
+      (quotePath R.pathOrSlash ++ (if !R.query.isEmpty then 63 :: R.query else [])) ++
+      (if R.hash.isEmpty then [] else 35 :: R.hash) := by
+    simp [URI.fullURI, URI.requestURI]
+  have rhs : u.fullURI qa = u.schemeOrHTTP ++ strColonSlashSlash ++ u.host ++
+      (quotePath u.pathOrSlash ++ (if !qa.isEmpty then 63 :: appendArgs qa
+        else if !u.query.isEmpty then 63 :: u.query else [])) ++
+      (if u.hash.isEmpty then [] else 35 :: u.hash) := rfl
+  rw [lhs, rhs, c1, c3, e]
+  simp only
+  congr 2
+  congr 1
+  rw [hqp]
+  cases ha : qa.isEmpty with
+  | false =>
+    have hne : qa ≠ [] := by intro h0; rw [h0] at ha; cases ha
+    have := appendArgs_ne_nil _ hne ainv
+    cases hh : appendArgs qa with
+    | nil => exact absurd hh this
+    | cons c t => simp
+  | true =>
+    cases hq : u.query.isEmpty with
+    | true => simp
+    | false => simp [hq]
+
+/-- The round trip of any state with the invariant of reachable states - the query conjunct in EVERY state: the text is
+written from the argument list exactly when `QueryArgs()` reports that list (flag set), and from the raw query string exactly
+when `QueryArgs()` would parse that string (flag clear). -/
+theorem state_roundtrip (st : UState) (inv : StInv st) (hwf : wfState st = true) :
+    (UState.ofParse [] st.fullURI).u.schemeOrHTTP = st.u.schemeOrHTTP ∧
+    (UState.ofParse [] st.fullURI).u.host = st.u.host ∧
+    (UState.ofParse [] st.fullURI).u.pathOrSlash = st.u.pathOrSlash ∧
+    (UState.ofParse [] st.fullURI).u.hash = st.u.hash ∧
+    (UState.ofParse [] st.fullURI).u.username = [] ∧ (UState.ofParse [] st.fullURI).u.password = [] ∧
+    (UState.ofParse [] st.fullURI).queryView = st.queryView.filter (fun kv => !kv.bothEmpty) ∧
+    (UState.ofParse [] st.fullURI).fullURI = st.fullURI := by
+  simp only [wfState, Bool.and_eq_true] at hwf
+  obtain ⟨hrec, hraw⟩ := hwf
+  have hfix : ∀ t, (UState.ofParse [] t).fullURI = (parse [] t).fullURI [] := fun _ => rfl
+  have hview : ∀ t, (UState.ofParse [] t).queryView = parseArgs (parse [] t).query := fun _ => rfl
+  have hu : ∀ t, (UState.ofParse [] t).u = parse [] t := fun _ => rfl
+  cases hpd : st.parsed with
+  | true =>
+    -- the arguments are the query; `queryString` is not written
+    have hf : st.fullURI = ({ st.u with query := [] } : URI).fullURI st.args := by
+      unfold UState.fullURI; rw [hpd]; exact fullURIp_true _ _
+    have uinv' : URIInv ({ st.u with query := [] } : URI) := ⟨inv.uinv.schemeLower, inv.uinv.hostLower, inv.uinv.pathNorm⟩
+    obtain ⟨c1, c2, c3, c4, c5, c6, c7, c8⟩ :=
+      record_roundtrip ({ st.u with query := [] } : URI) st.args uinv' inv.ainv hrec (by simp [hasCTL])
+    rw [hfix, hview, hu, hf]
+    refine ⟨c1, c2, c3, c4, c5, c6, ?_, c8⟩
+    rw [c7]
+    have hqv : st.queryView = st.args := by unfold UState.queryView UState.parseQA; rw [hpd]; rfl
+    rw [hqv]
+    cases ha : st.args with
+    | nil => rfl
+    | cons kv t =>
+      show parseArgs (appendArgs (kv :: t)) = _
+      rw [← ha]
       exact parseArgs_appendArgs _ (inv2_to_inv _ inv.ainv)
-    | true =>
-      have hnil : st.args = [] := List.isEmpty_iff.mp ha
-      cases hpd : st.parsed with
-      | true =>
-        have hq : st.u.query.isEmpty = true := by
-          rcases hstale.2 with h | h
-          · rcases h with h | h
-            · rw [hpd] at h; cases h
-            · rw [ha] at h; cases h
-          · exact h
-        simp only [hq, Bool.not_true, Bool.false_eq_true, if_false, Option.getD_none, if_true, hnil]
-        rfl
-      | false =>
-        simp only [Bool.not_true, Bool.false_eq_true, if_false]
-        rw [parseArgs_noBothEmpty]
-        cases hq : st.u.query.isEmpty with
-        | true =>
-          have := isEmpty_eq_nil _ hq
-          simp [this]
-        | false => simp
-  · -- formatting again
-    show (parse [] (st.u.fullURI st.args)).fullURI [] = st.u.fullURI st.args
-    generalize hR : parse [] (st.u.fullURI st.args) = R at e c1 c3 ⊢
-    have lhs : R.fullURI [] = R.schemeOrHTTP ++ strColonSlashSlash ++ R.host ++
-        (quotePath R.pathOrSlash ++ (if !R.query.isEmpty then 63 :: R.query else [])) ++
-        (if R.hash.isEmpty then [] else 35 :: R.hash) := by
-      simp [URI.fullURI, URI.requestURI]
-    have rhs : st.u.fullURI st.args = st.u.schemeOrHTTP ++ strColonSlashSlash ++ st.u.host ++
-        (quotePath st.u.pathOrSlash ++ (if !st.args.isEmpty then 63 :: appendArgs st.args
-          else if !st.u.query.isEmpty then 63 :: st.u.query else [])) ++
-        (if st.u.hash.isEmpty then [] else 35 :: st.u.hash) := rfl
-    rw [lhs, rhs, c1, c3, e]
-    simp only
-    congr 2
-    congr 1
-    rw [hqp]
-    cases ha : st.args.isEmpty with
-    | false =>
-      have hne : st.args ≠ [] := by intro h0; rw [h0] at ha; cases ha
-      have := appendArgs_ne_nil _ hne inv.ainv
-      cases hh : appendArgs st.args with
-      | nil => exact absurd hh this
-      | cons c t => simp
-    | true =>
-      cases hq : st.u.query.isEmpty with
-      | true => simp
-      | false => simp [hq]
+  | false =>
+    -- the raw query string is the query; the entries left in `queryArgs` are not written
+    have hf : st.fullURI = st.u.fullURI [] := by
+      unfold UState.fullURI; rw [hpd]; rfl
+    have hraw' : (!([] : List ArgKV).isEmpty || (!hasCTL st.u.query && !st.u.query.contains 35)) = true := by
+      simpa [rawQueryOK, hpd] using hraw
+    obtain ⟨c1, c2, c3, c4, c5, c6, c7, c8⟩ := record_roundtrip st.u [] inv.uinv inv2_nil hrec hraw'
+    rw [hfix, hview, hu, hf]
+    refine ⟨c1, c2, c3, c4, c5, c6, ?_, c8⟩
+    rw [c7]
+    have hqv : st.queryView = parseArgs st.u.query := by unfold UState.queryView UState.parseQA; rw [hpd]; rfl
+    rw [hqv, parseArgs_noBothEmpty]
+    show parseArgs ((if !st.u.query.isEmpty then some st.u.query else none).getD []) = _
+    cases hq : st.u.query with
+    | nil => rfl
+    | cons c t => rfl
 
 /-- `program_roundtrip`: the same for the final state of any program. -/
 theorem program_roundtrip (ops : List UriOp) (st : UState) (hrun : runUriOps ops = some st) (hwf : wfState st = true) :
@@ -449,9 +477,27 @@ theorem program_roundtrip (ops : List UriOp) (st : UState) (hrun : runUriOps ops
     (UState.ofParse [] st.fullURI).u.pathOrSlash = st.u.pathOrSlash ∧
     (UState.ofParse [] st.fullURI).u.hash = st.u.hash ∧
     (UState.ofParse [] st.fullURI).u.username = [] ∧ (UState.ofParse [] st.fullURI).u.password = [] ∧
-    (st.staleQuery = false →
-      (UState.ofParse [] st.fullURI).queryView = st.queryView.filter (fun kv => !kv.bothEmpty)) ∧
+    (UState.ofParse [] st.fullURI).queryView = st.queryView.filter (fun kv => !kv.bothEmpty) ∧
     (UState.ofParse [] st.fullURI).fullURI = st.fullURI :=
   state_roundtrip st (run_inv ops st hrun) hwf
+
+/-- in ANY state reached by a program whose last step is `SetQueryString(q)` with `q` free of `#` and control bytes - whatever
+was done through `QueryArgs()` before - the re-parsed URI reports the arguments of `q` -/
+theorem setQueryString_wins (ops : List UriOp) (q : Bytes) (st : UState)
+    (hrun : runUriOps (ops ++ [.setQueryString q]) = some st) (hrec : wfRecord st.u = true)
+    (hq : hasCTL q = false ∧ q.contains 35 = false) :
+    (UState.ofParse [] st.fullURI).queryView = parseArgs q := by
+  obtain ⟨st0, h0, _⟩ := run_never_panics ops
+  have hst : st = { st0 with u := { st0.u with query := q }, parsed := false } := by
+    unfold runUriOps at hrun h0
+    rw [List.foldlM_append, h0] at hrun
+    simpa [UState.step] using hrun.symm
+  have hwf : wfState st = true := by
+    simp only [wfState, hrec, Bool.true_and]
+    rw [hst]
+    simp only [rawQueryOK, hq.1, hq.2, Bool.false_or, Bool.not_false, Bool.and_self]
+  have h := (program_roundtrip _ st hrun hwf).2.2.2.2.2.2.1
+  rw [h, hst]
+  exact parseArgs_noBothEmpty q
 
 end Hertz.Uri
